@@ -78,6 +78,27 @@ class Path:
         return Path(self.bytes if bytes_ is None else bytes_, dict(self.env))
 
 
+def _strnum_clash(op, l, r):
+    """True when `l op r` combines a str with a number in a way Python
+    rejects with TypeError (str * float, str + int, str - x, ...)."""
+    def is_str(v):
+        return v.kind == "str" or (v.kind == "const" and isinstance(v.val,
+                                                                   str))
+
+    def num(v):
+        if v.kind in ("byte", "int", "enum", "bfun"):
+            return int
+        if v.kind == "const" and isinstance(v.val, (int, float)) and \
+                not isinstance(v.val, bool):
+            return type(v.val)
+        return None
+    if is_str(l) and num(r) is not None:
+        return not (isinstance(op, ast.Mult) and num(r) is int)
+    if is_str(r) and num(l) is not None:
+        return not (isinstance(op, ast.Mult) and num(l) is int)
+    return False
+
+
 class Outcome:
     """Result of running a piece of code on one path."""
     __slots__ = ("kind", "val", "bytes", "trail", "facts")
@@ -772,6 +793,10 @@ class TriInterp:
                                                    and isinstance(l.val,
                                                                   str))):
                         res.append((q, STR))
+                    elif _strnum_clash(e.op, l, r):
+                        # text combined with a number (a marker string where
+                        # the integer was expected): TypeError at run time
+                        outs.append(Outcome("raise", "TypeError", q.bytes))
                     elif l.kind == "const" and r.kind == "const":
                         v = self.folder.eval(e, {}, mod)
                         res.append((q, self.lift(v)))
